@@ -241,12 +241,85 @@ def write_replay(prop: str, tier: str, seed: int, case: Dict[str, Any], c: Dict[
     return path
 
 
+CROSS = dict(dir=None, result=None)
+
+
+def _start_cross_check(tier: str, n_cases: int):
+    """thorough tier: a sample of the decided path obligations is dumped as SMT-LIB2 and re-decided afterwards by the
+    z3 4.8.12 and cvc5 1.0.3 binaries (independent of the z3 5.x library used for the exploration)"""
+    import shutil
+    import tempfile
+
+    if tier != "thorough" or not shutil.which("z3") or os.environ.get("VERIF_NO_CROSSCHECK"):
+        return
+    d = tempfile.mkdtemp(prefix="verif_smt_")
+    CROSS.update(dir=d)
+    # workers inherit this configuration on fork; each worker dumps every k-th obligation, at most `limit` files
+    symx.DUMP.update(dir=d, every=97, n=0, written=0, limit=max(4, 400 // max(1, min(16, n_cases))))
+
+
+def _finish_cross_check() -> Optional[Dict[str, Any]]:
+    import glob
+    import shutil
+    import subprocess
+    from concurrent.futures import ThreadPoolExecutor
+
+    d = CROSS.get("dir")
+    if not d:
+        return None
+    symx.DUMP.update(dir=None)
+    files = sorted(glob.glob(os.path.join(d, "*.smt2")))[:400]
+    cvc5 = shutil.which("cvc5")
+
+    def decide(f):
+        exp = "unsat" if f.endswith("_unsat.smt2") else "sat"
+        text = open(f).read()
+        out = {}
+        try:
+            r = subprocess.run(["z3", "-smt2", "-T:20", f], capture_output=True, text=True, timeout=40)
+            out["z3-4.8"] = "error" if "(error" in r.stdout else (r.stdout.split() or ["?"])[0]
+        except Exception:
+            out["z3-4.8"] = "timeout"
+        if cvc5:
+            g = f + ".cvc5.smt2"
+            with open(g, "w") as h:
+                h.write("(set-logic ALL)\n" + text)
+            try:
+                r = subprocess.run([cvc5, "--tlimit=20000", g], capture_output=True, text=True, timeout=40)
+                out["cvc5"] = "error" if "(error" in r.stdout + r.stderr else (r.stdout.split() or ["?"])[0]
+            except Exception:
+                out["cvc5"] = "timeout"
+        return exp, out
+
+    res = dict(obligations_rechecked=len(files), agree=0, disagree=[], inconclusive=0, solvers=["z3 4.8.12 (/usr/bin/z3)"] + (["cvc5 1.0.3"] if cvc5 else []))
+    with ThreadPoolExecutor(8) as ex:
+        for f, (exp, out) in zip(files, ex.map(decide, files)):
+            for solver, ans in out.items():
+                if ans == exp:
+                    res["agree"] += 1
+                elif ans in ("sat", "unsat"):
+                    res["disagree"].append(dict(file=os.path.basename(f), solver=solver, expected=exp, answered=ans))
+                else:
+                    res["inconclusive"] += 1
+    shutil.rmtree(d, ignore_errors=True)
+    CROSS.update(dir=None, result=res)
+    return res
+
+
 def run_cases(cases: List[Case], seed: int, jobs: int, recycle: int = 40) -> List[Dict[str, Any]]:
     global _CASES, _SEED
     _CASES = cases
     _SEED = seed
     if not cases:
         return []
+    _start_cross_check(os.environ.get("VERIF_TIER_ACTIVE", ""), len(cases))
+    try:
+        return _run_cases(cases, seed, jobs, recycle)
+    finally:
+        _finish_cross_check()
+
+
+def _run_cases(cases: List[Case], seed: int, jobs: int, recycle: int = 40) -> List[Dict[str, Any]]:
     if jobs <= 1 or len(cases) == 1:
         return [run_case(i) for i in range(len(cases))]
     ctx = mp.get_context("fork")
@@ -373,6 +446,10 @@ def finish(
     )
     for k, v in (extra.get("coverage") or {}).items():
         cov[k] = v
+    if CROSS.get("result"):
+        cov["cross_check_with_independent_solvers"] = CROSS["result"]
+        if CROSS["result"]["disagree"]:
+            harness_errors.append("independent solver disagrees on %d dumped obligations: %s" % (len(CROSS["result"]["disagree"]), CROSS["result"]["disagree"][:2]))
     ev = dict(
         property_id=prop,
         tier=tier,
@@ -432,6 +509,7 @@ def main_for(module_name: str, argv: List[str]) -> int:
     ap.add_argument("--replay", default=None)
     a = ap.parse_args(argv)
     seed = int(os.environ.get("VERIF_SEED", "0") or 0)
+    os.environ["VERIF_TIER_ACTIVE"] = a.tier
     mod = importlib.import_module(module_name)
     if a.replay:
         return replay(mod, a.replay)
